@@ -122,6 +122,16 @@ func registerCompounds() {
 		mkCompound("decorator.NoLoss.StopLoss", nested, bah),
 		mkCompound("decorator.Inverse.And", invAnd, aroon, bop),
 	)
+	// second level: parts that are themselves decorators / compounds hand their actions over unbuffered channels
+	// (a plain indicator strategy parks its warm-up in the buffer of helper.Shift), so the voting loops' drains matter
+	register(
+		mkCompound("strategy.Split", split, "decorator.Inverse(Macd)", bah),
+		mkCompound("strategy.Split", split, bah, "decorator.NoLoss(Rsi)"),
+		mkCompound("strategy.Split", split, "strategy/compound.MacdRsiStrategy", bah),
+		mkCompound("strategy.And", and, "decorator.NoLoss(Rsi)", "strategy.Or(Aroon,ChaikinMoneyFlow)"),
+		mkCompound("strategy.Or", or, bah, "decorator.Inverse(Macd)"),
+		mkCompound("strategy.Majority", maj, "decorator.StopLoss(Macd)", bah, "strategy.Split(BuyAndHold,Aroon)"),
+	)
 }
 
 // Level variants: strategies whose With-constructor takes Buy/Sell levels, at levels that differ from the defaults
